@@ -113,6 +113,38 @@ Proof. unfold dec_n_modes_clipped, dec_n_modes_required, count_ge. cbn [cumsum c
           | replace (Rleb a b) with false by (symmetry; apply Rleb_false; lra) ] end.
   reflexivity. Qed.
 
+(* A larger requested fraction never keeps fewer modes and never withdraws the warning:
+   holds for every list (sorted or not) and every number of precomputed modes. *)
+Lemma count_ge_antitone (l : list R) a b : a <= b -> (count_ge OR l b <= count_ge OR l a)%nat.
+Proof. intros Hab. unfold count_ge. induction l as [|c r IH]; [apply le_n|].
+  cbn [filter fleb OR] in *. destruct (Rleb b c) eqn:Eb; destruct (Rleb a c) eqn:Ea; cbn [length]; try lia.
+  exfalso. apply Rleb_true in Eb. apply Rleb_false in Ea. lra. Qed.
+
+Lemma threshold_monotone (npre : Z) (cum : list R) (f1 f2 : R) : f1 <= f2 ->
+  (fst (dec_n_modes_clipped OR npre cum f1) <= fst (dec_n_modes_clipped OR npre cum f2))%Z /\
+  (fst (svd_n_modes_clipped OR npre cum f1) <= fst (svd_n_modes_clipped OR npre cum f2))%Z /\
+  (snd (dec_n_modes_clipped OR npre cum f1) = true -> snd (dec_n_modes_clipped OR npre cum f2) = true) /\
+  (snd (svd_n_modes_clipped OR npre cum f1) = true -> snd (svd_n_modes_clipped OR npre cum f2) = true).
+Proof. intros H. pose proof (count_ge_antitone cum f1 f2 H) as Hc.
+  unfold dec_n_modes_clipped, dec_n_modes_required, svd_n_modes_clipped, svd_n_modes_required.
+  set (c1 := count_ge OR cum f1) in *. set (c2 := count_ge OR cum f2) in *.
+  destruct (Z.gtb_spec (npre - Z.of_nat c1 + 1) npre); destruct (Z.gtb_spec (npre - Z.of_nat c2 + 1) npre); cbn [fst snd];
+  repeat split; intros; try lia; try reflexivity; try discriminate. Qed.
+
+(* refuted variant: counting the cumulative fractions that *exceed* the request (strict
+   comparison) keeps one mode too many when the request is met exactly *)
+Definition n_modes_required_strict (npre : Z) (cum : list R) (frac : R) : Z :=
+  (npre - Z.of_nat (length (filter (fun c => negb (Rleb c frac)) cum)) + 1)%Z.
+Lemma threshold_strict_variant_refuted :
+  exists cum frac, frac <= nth 0 cum 0 /\ n_modes_required_strict 2 cum frac = 2%Z /\
+                   fst (dec_n_modes_clipped OR 2 cum frac) = 1%Z.
+Proof. exists [1/2; 1], (1/2). split; [cbn [nth]; lra|].
+  unfold n_modes_required_strict, dec_n_modes_clipped, dec_n_modes_required, count_ge. cbn [filter fleb OR].
+  repeat match goal with |- context [Rleb ?a ?b] =>
+    first [ replace (Rleb a b) with true by (symmetry; apply Rleb_true; lra)
+          | replace (Rleb a b) with false by (symmetry; apply Rleb_false; lra) ] end.
+  split; reflexivity. Qed.
+
 (* the fraction compared is explained variance over total variance with N-1 and ddof=1 *)
 Lemma dec_fraction_formula s n tv : dec_expvar_fraction OR s n tv = s * s / n / tv.
 Proof. reflexivity. Qed.
